@@ -274,7 +274,9 @@ def composite_universe(seed, tags=(1, 2, 3)):
         while True:
             n = rng.randint(1, 5)
             txt = "".join(rng.choice("abc") if (k % 3 != 2 or k == n - 1) else rng.choice("abc ") for k in range(n))
-            if txt not in texts.values() and "  " not in txt and txt == txt.strip():
+            # distinct lengths: the frame window [0, 2n+1] is how a line's window tag is recognised in the projection
+            if txt not in texts.values() and "  " not in txt and txt == txt.strip() and \
+                    all(len(txt) != len(o) for o in texts.values()):
                 break
         rows = [[0] * nb + [-1]]
         for ch in txt:
